@@ -427,8 +427,8 @@ def run_e2e(chk, UWG, idx, cfg):
 
 # ----------------------------------------------------------------------------- run
 def run(chk):
-    from props import morph
-    chk.proof(MODULE, THEOREMS + morph.THEOREMS, extra_modules=[morph.MODULE])
+    from props import morph, pipeline
+    chk.proof(MODULE, THEOREMS + morph.THEOREMS + pipeline.THEOREMS, extra_modules=[morph.MODULE, pipeline.MODULE])
     if chk.tier == 'thorough':
         chk.leanchecker([MODULE, morph.MODULE])
     from uwg import UWG
@@ -805,6 +805,7 @@ def run(chk):
 
     # ---------------------------------------------------------------- (m) composition A: the whole pipeline
     morph.run_morph(chk)
+    pipeline.run_pipeline(chk)      # (p) composition D: the same pipeline with the concrete readers and physics
 
     chk.assumptions += [
         'text layer: Python universal-newline translation and the utf-8 codec with errors=ignore are outside '
@@ -860,6 +861,9 @@ def replay(chk, path):
     elif kind == 'morph':
         from props import morph
         msg = morph.replay_case(chk, case)
+    elif kind == 'pipeline':
+        from props import pipeline
+        msg = pipeline.replay_case(chk, case)
     elif kind == 'e2e':
         cfg = (case['epw_path'], case['uwg_path'], case['month'], case['day'], case['nday'], case['dtsim'],
                case['precision'])
